@@ -98,6 +98,15 @@ def _gen_op(r, model):
     k = weighted(r, [('assign', 5), ('setitem', 4), ('short', 2.5), ('setitemop', 2), ('mutate', 8), ('host', 4), ('keep', 1)])
     if not tg:
         k = 'assign'
+    if k == 'assign' and tg and r.random() < 0.12:
+        # a lambda whose parameter is named like a host variable is applied to another container; afterwards, in the
+        # same evaluation, that host variable is assigned from / extended
+        hostn = r.choice([n for n, v in model.host.items() if isinstance(v, list)] or ['l'])
+        te, obj = r.choice(tg)
+        seq = te if isinstance(obj, list) else ['list', [te]]
+        stmts = [['call', 'map', [seq, ['lambda', [hostn], ['name', hostn]]], 'plain'],
+                 r.choice([['assign', r.choice(NEW_VARS), ['name', hostn]], ['short', hostn, '+=', ['list', [['num', '5']]]]])]
+        return {'op': 'eval', 'prog': ['block', stmts], 'form': 'block'}
     if k == 'assign' and r.random() < 0.3:
         # several assignments from the same source inside ONE eval call (state shared within a call)
         src = _source_expr(r, model)
